@@ -163,6 +163,9 @@ func TestC16(t *testing.T) {
 			}
 		}
 	}
+	// a short store (15 headers) whose tail is moved down while both range requests of the move fail: the case in
+	// which the force-appended new tail is left behind as a stray header (known finding, DESIGN 6.2)
+	mon.Emit(r, "tail", c16P{Chain: "regular", StoreLo: 26, StoreHi: 40, Net: 83, AgeS: 10800, Gossip: 3, FailRanges: 2, Cfgs: []c16Cfg{{WindowNs: int64(time.Hour), FromH: "below-tail", TPNs: tps[1]}, {WindowNs: 50, FromH: "one", BTNs: 1, TPNs: tps[0]}}}, "tail")
 	// catch-up after downtime on a chain denser than the block time: the store head lies between the estimate
 	// (head - window/blockTime) and the true window start (head - window/spacing), the old tail far behind
 	for _, ch := range []struct {
